@@ -4,6 +4,7 @@ import (
 	"context"
 	"encoding/binary"
 	"fmt"
+	"io"
 	"runtime"
 	"strings"
 	"sync"
@@ -22,12 +23,14 @@ import (
 
 // Options selects the node's role.
 type Options struct {
-	VerifyOnly bool `json:"verify_only,omitempty"`
-	TxManager  bool `json:"tx_manager,omitempty"`
-	Manager    bool `json:"node_manager,omitempty"`     // register the node with a NodeManager
-	Preload    bool `json:"preload_headers,omitempty"`  // the repository already holds blocks 1 and 2 (learned from another peer)
-	Universe   bool `json:"universe_headers,omitempty"` // proof-of-work checking off, so that the labelled header universe of verif/hdr can be submitted to the repository
-	ReadChunk  int  `json:"read_chunk,omitempty"`       // > 0: the node's reads return at most this many bytes (the stream arrives in pieces)
+	VerifyOnly    bool `json:"verify_only,omitempty"`
+	TxManager     bool `json:"tx_manager,omitempty"`
+	Manager       bool `json:"node_manager,omitempty"`     // register the node with a NodeManager
+	Preload       bool `json:"preload_headers,omitempty"`  // the repository already holds blocks 1 and 2 (learned from another peer)
+	HeaderHandler bool `json:"header_handler,omitempty"`   // a secondary headers handler is installed, as the node manager does for every node it creates
+	NoSplits      bool `json:"no_split_table,omitempty"`   // the repository knows no chain split points (as on a network without any): its verify-only locator is empty
+	Universe      bool `json:"universe_headers,omitempty"` // proof-of-work checking off, so that the labelled header universe of verif/hdr can be submitted to the repository
+	ReadChunk     int  `json:"read_chunk,omitempty"`       // > 0: the node's reads return at most this many bytes (the stream arrives in pieces)
 }
 
 // SpyHeaders wraps the real header repository and records the calls a peer can cause.
@@ -188,6 +191,9 @@ func start(opt Options, with *Session) *Session {
 		if opt.Universe {
 			repo.DisableDifficulty()
 		}
+		if opt.NoSplits {
+			repo.VerifSetSplits(nil, nil)
+		}
 		if opt.Preload {
 			for _, h := range []*wire.BlockHeader{Block1, Block2} {
 				hc := h.Copy()
@@ -204,6 +210,26 @@ func start(opt Options, with *Session) *Session {
 	s.Node = bitcoin_reader.NewBitcoinNode(PeerAddress, "/verif/", cfg, s.Headers, s.Peers)
 	if opt.VerifyOnly {
 		s.Node.SetVerifyOnly()
+	}
+	if opt.HeaderHandler {
+		// reads the headers message the way an application's handler does: the announced number of
+		// headers, one by one, until they are all there or the stream ends
+		s.Node.SetHeaderHandler(func(ctx context.Context, h *wire.MessageHeader, r io.Reader) error {
+			count, err := wire.ReadVarInt(r, wire.ProtocolVersion)
+			if err != nil {
+				return err
+			}
+			for i := uint64(0); i < count; i++ {
+				bh := &wire.BlockHeader{}
+				if err := bh.Deserialize(r); err != nil {
+					return err
+				}
+				if _, err := wire.ReadVarInt(r, wire.ProtocolVersion); err != nil {
+					return err
+				}
+			}
+			return nil
+		})
 	}
 	if opt.TxManager && with != nil && with.TxManager != nil {
 		s.TxManager, s.Processor = with.TxManager, with.Processor
